@@ -8,6 +8,7 @@ from ..rules import common
 from . import c03
 
 TITLE = "Synchronous connect yields a live session or a definite error in time"
+TECHNIQUE = 'custom static analysis over clang-14 CFG facts: exactly-once counting with ghost atoms in a finite predicate abstraction, dominance, call-graph reachability from timeout/cancel paths'
 IMPL, SYNC, SCO, FILE = c03.IMPL, c03.SYNC, c03.SCO, c03.FILE
 TR = "iora::network::Transport"
 EB = "iora::network::detail::EngineBase"
